@@ -234,7 +234,8 @@ def _mentions_R(c):
 
 
 def value_unit(arg):
-    name, thorough, budget = arg
+    name, thorough, budget = arg[:3]
+    chunk, nchunks = (arg[3], arg[4]) if len(arg) > 3 else (0, 1)
     from pytableaux.logics import registry
     registry.import_all()
     logic = registry(name)
@@ -252,7 +253,7 @@ def value_unit(arg):
         # worlds (quick), chains of three steps need four (thorough)
         A0 = lang()[0]
         shapes.append((f'frame-only W={W + 1}', A0, W + 1))
-    for sname, s, W in shapes:
+    for sname, s, W in shapes[chunk::nchunks]:
         K = 1
         if s.predicates or s.quantifiers:
             K = 3 if thorough else 2
@@ -524,14 +525,18 @@ def run(ctx):
     rep = Report('C08', 'model_checking')
     thorough = not ctx.quick
     names = sorted(registry(n).Meta.name for n in registry.all())
-    budget = 400 if ctx.quick else 1800
+    budget = 400 if ctx.quick else 900
     classical = [n for n in names if spec.logic_info(n)['classical']]
     with mp.Pool(ctx.jobs) as pool:
         ar_lim = pool.apply_async(limit_unit, (budget,))
         ar_xh = pool.apply_async(crosshair_unit, (budget,))
         ar_id = [pool.apply_async(identity_unit, ((n, 3 if ctx.quick else 4, budget * 2),))
                  for n in (classical if thorough else ['CPL', 'CFOL', 'K', 'S5'])]
-        results = pool.map(value_unit, [(n, thorough, budget) for n in names], chunksize=1)
+        # the sentence shapes of one logic are spread over several units (a slow logic must not
+        # become the tail of the run)
+        nch = 6 if thorough else 2
+        results = pool.map(value_unit, [(n, thorough, budget, k, nch) for n in names for k in range(nch)],
+                           chunksize=1)
         lim = ar_lim.get()
         xh = ar_xh.get()
         ids = [a.get() for a in ar_id]
